@@ -11,11 +11,11 @@
 #include <sys/resource.h>
 #include <sys/wait.h>
 
-struct Faults { int open_fail = -1; int w1 = -1, w2 = -1; int persistent = -1; int lock_fail = -1; int close_fail = -1; int err = 0; /* 0 EIO, 1 ENOSPC, 2 EINTR, 3 EAGAIN, 4 stall: pwrite returns 0 */ };
+struct Faults { int open_fail = -1; int w1 = -1, w2 = -1; int persistent = -1; int lock_fail = -1; int close_fail = -1; int fd0 = 0; /* descriptor 0 is free when the device creates its files (a process started with stdin closed): the file gets number 0 */ int err = 0; /* 0 EIO, 1 ENOSPC, 2 EINTR, 3 EAGAIN, 4 stall: pwrite returns 0 */ };
 static const int ERRNOS[5] = { EIO, ENOSPC, EINTR, EAGAIN, 0 };
 static std::string faults_str(const Faults& f)
 {
-    char b[192]; snprintf(b, sizeof b, "open_fail=%d,w1=%d,w2=%d,persistent=%d,lock_fail=%d,err=%d,close_fail=%d", f.open_fail, f.w1, f.w2, f.persistent, f.lock_fail, f.err, f.close_fail); return b;
+    char b[192]; snprintf(b, sizeof b, "open_fail=%d,w1=%d,w2=%d,persistent=%d,lock_fail=%d,err=%d,close_fail=%d,fd0=%d", f.open_fail, f.w1, f.w2, f.persistent, f.lock_fail, f.err, f.close_fail, f.fd0); return b;
 }
 static const char* KIND_NAME(int k) { switch (k) { case BasicDevice_Storage_Raw: return "raw"; case BasicDevice_Storage_Tiff: return "tiff"; case BasicDevice_Storage_Trash: return "trash"; case BasicDevice_Storage_SideBySideTiffJson: return "tiff-json"; } return "?"; }
 
@@ -40,6 +40,7 @@ static void child_run(int kind, const std::string& ops, const Faults& f, Outcome
         strcpy(out->verdict, "viol"); snprintf(out->clause, sizeof out->clause, "%s", clause);
         va_list ap; va_start(ap, fmt); vsnprintf(out->detail, sizeof out->detail, fmt, ap); va_end(ap);
     };
+    if (f.fd0) { if (g_foreign >= 0) { h_close(g_foreign); g_foreign = -1; } g_keep_fd0_free = true; h_close(0); }
     foreign_shuffle();
     struct Storage* dev = dev_open(kind);
     if (!dev) { fail("open-failed", "storage_open returned NULL"); return; }
@@ -143,7 +144,7 @@ int main(int argc, char** argv)
         size_t bar = replay.find('|');
         std::string ops = replay.substr(0, bar);
         Faults f;
-        if (bar != std::string::npos) sscanf(replay.c_str() + bar + 1, "open_fail=%d,w1=%d,w2=%d,persistent=%d,lock_fail=%d,err=%d,close_fail=%d", &f.open_fail, &f.w1, &f.w2, &f.persistent, &f.lock_fail, &f.err, &f.close_fail);
+        if (bar != std::string::npos) sscanf(replay.c_str() + bar + 1, "open_fail=%d,w1=%d,w2=%d,persistent=%d,lock_fail=%d,err=%d,close_fail=%d,fd0=%d", &f.open_fail, &f.w1, &f.w2, &f.persistent, &f.lock_fail, &f.err, &f.close_fail, &f.fd0);
         Outcome o = run_forked(kind, ops, f);
         h_rmtree(g_scratch);
         printf("%s: open;%s;close with %s -> %s %s %s (%d pwrite calls, %d opens)\n", KIND_NAME(kind), ops.c_str(), faults_str(f).c_str(), o.verdict, o.clause, o.detail, o.writes, o.opens);
@@ -180,6 +181,14 @@ int main(int argc, char** argv)
         // creating a file = open + lock: the lock is refused (another process or device holds the file) at the j-th create, or at all
         for (int j = 0; j < O; ++j) { Faults f; f.lock_fail = j; note(ops, f, run_forked(kind, ops, f)); ++with_faults; }
         if (O) { Faults f; f.lock_fail = -2; note(ops, f, run_forked(kind, ops, f)); ++with_faults; }
+        // descriptor 0 is free (stdin closed): the device's first file is number 0, which is as good a descriptor as any other
+        { Faults f; f.fd0 = 1; note(ops, f, run_forked(kind, ops, f)); ++with_faults; }
+        if (ops.size() <= 3 || ops == "srap" || ops == "sraa" || ops == "srpr" || ops == "srar")
+            for (int k = 0; k < W; ++k) {
+                Faults f; f.fd0 = 1; f.w1 = k; note(ops, f, run_forked(kind, ops, f)); ++with_faults;
+                Faults g; g.fd0 = 1; g.persistent = k; note(ops, g, run_forked(kind, ops, g)); ++with_faults;
+            }
+        for (int j = 0; j < O && ops.size() <= 3; ++j) { Faults f; f.fd0 = 1; f.lock_fail = j; note(ops, f, run_forked(kind, ops, f)); ++with_faults; }
         // other errno values the OS may answer with (a full disk, an interrupted or would-block write): transient at k, persistent from k
         if (ops.size() <= 3 || ops == "srap" || ops == "sraa")
             for (int k = 0; k < W && g_hangs < 3; ++k)
